@@ -396,18 +396,45 @@ func ruleR3RunPreconditions(c *Ctx) []Obligation {
 	lockstep := false
 	{
 		ins := roles.byObj[roles.insert]
-		var fields []string
-		// unconditional appends only: statements of the body itself
-		for _, st := range ins.fd.Body.List {
-			as, ok := st.(*ast.AssignStmt)
-			if !ok || len(as.Lhs) != 1 || len(as.Rhs) != 1 {
-				continue
-			}
-			if f := vmFieldOf(ins.info, as.Lhs[0]); f != nil {
-				if d, ok := vmSliceWrite(ins.info, as.Lhs[0], as.Rhs[0], f); ok && d == 1 {
-					fields = append(fields, f.Name())
+		// the function that really appends: the insert role itself, or the function it forwards to
+		// (`insert` → `appendTo(fn, instr, span)`); unconditional appends only (statements of the body
+		// itself), tuple assignments element-wise
+		appendsOf := func(fn *vmFn) []string {
+			var fields []string
+			for _, st := range fn.fd.Body.List {
+				as, ok := st.(*ast.AssignStmt)
+				if !ok || len(as.Lhs) != len(as.Rhs) {
+					continue
+				}
+				for k := range as.Lhs {
+					if f := vmFieldOf(fn.info, as.Lhs[k]); f != nil {
+						if d, ok := vmSliceWrite(fn.info, as.Lhs[k], as.Rhs[k], f); ok && d == 1 {
+							fields = append(fields, f.Name())
+						}
+					}
 				}
 			}
+			return fields
+		}
+		appender := ins
+		fields := appendsOf(appender)
+		for depth := 0; len(fields) == 0 && depth < 3; depth++ {
+			var next *vmFn
+			for _, st := range appender.fd.Body.List {
+				ast.Inspect(st, func(n ast.Node) bool {
+					if call, ok := n.(*ast.CallExpr); ok && next == nil {
+						if g := roles.byObj[CalleeOf(appender.info, call)]; g != nil && g != appender && vmWritesField(g.info, g.fd.Body, roles.instrField) {
+							next = g
+						}
+					}
+					return next == nil
+				})
+			}
+			if next == nil {
+				break
+			}
+			appender = next
+			fields = appendsOf(appender)
 		}
 		sort.Strings(fields)
 		ob := Obligation{Key: "compiler." + FuncName(ins.fd) + "|appends one instruction and one source-map entry in lockstep", Pos: c.Pos(ins.fd.Pos()), Nontrivial: true}
